@@ -29,6 +29,23 @@ _INSTALLED = False
 _CLS: Any = None
 
 
+def fresh(v: Any) -> Any:
+    """Structural copy of render data with newly created str objects.
+
+    ``sys.getsizeof`` of a non-ASCII str grows once its UTF-8 form has been cached (pickling a Result that
+    holds the string does that), so a str object shared between renders could be measured differently by two
+    renders of one case.  Every render therefore gets its own copies; one-character strings are interpreter
+    singletons and are not used as non-ASCII data values.
+    """
+    if isinstance(v, str):
+        return v.encode("utf-8", "surrogatepass").decode("utf-8", "surrogatepass") if len(v) > 1 else v
+    if isinstance(v, list):
+        return [fresh(i) for i in v]
+    if isinstance(v, dict):
+        return {k: fresh(i) for k, i in v.items()}
+    return v
+
+
 def chain_total(ctx: Any) -> int:
     total = 0
     hops = 0
